@@ -114,6 +114,38 @@ fn check_entry<E: std::fmt::Display>(
     }
 }
 
+/// a sink that accepts `0` bytes in total and then fails every call
+struct FailAfter(usize);
+impl std::io::Write for FailAfter {
+    fn write(&mut self, b: &[u8]) -> std::io::Result<usize> {
+        if self.0 == 0 {
+            return Err(std::io::Error::new(std::io::ErrorKind::Other, "sink full"));
+        }
+        let n = b.len().min(self.0);
+        self.0 -= n;
+        Ok(n)
+    }
+    fn flush(&mut self) -> std::io::Result<()> {
+        Ok(())
+    }
+}
+
+fn floor_char_boundary(s: &str, mut k: usize) -> usize {
+    k = k.min(s.len());
+    while !s.is_char_boundary(k) {
+        k -= 1;
+    }
+    k
+}
+
+fn short(s: &str) -> String {
+    if s.len() > 160 {
+        format!("{}...({} bytes)", &s[..floor_char_boundary(s, 160)], s.len())
+    } else {
+        s.to_owned()
+    }
+}
+
 fn value_case(rep: &mut Report, seed: u64, index: u64) {
     let mut r = Rng::derive(seed, "c17", index);
     let ty = ALL_VARIANT_TYPES[(index as usize) % ALL_VARIANT_TYPES.len()];
@@ -138,6 +170,37 @@ fn value_case(rep: &mut Report, seed: u64, index: u64) {
                 let mut w = Vec::new();
                 if serde_json::to_writer(&mut w, &v).is_ok() && w != text.as_bytes() {
                     rep.violation(&format!("C17:json.to_writer-differs:{:?}", ty), "to_writer and to_string disagree", replay.clone(), J::Null);
+                }
+                // a call that FAILS half-way (sink refuses after k bytes, input cut after k bytes) must leave nothing
+                // behind: the next ordinary call on the same thread gives exactly what it gave before
+                let cuts = [0usize, 1, text.len() / 2, text.len().saturating_sub(1), r.below(text.len().max(1))];
+                for k in cuts {
+                    let failed = catch(|| serde_json::to_writer(FailAfter(k), &v).is_err());
+                    rep.count("fault.json.sink-fails-mid-value");
+                    match failed {
+                        Err(p) => rep.violation(&format!("C17:json.to_writer:panic-on-failing-sink:{:?}", ty), &p.msg, replay.clone(), J::Null),
+                        Ok(false) if k < text.len() => rep.violation(
+                            &format!("C17:json.to_writer:sink-error-swallowed:{:?}", ty),
+                            &format!("the sink refused everything after {} of {} bytes and to_writer reported success", k, text.len()),
+                            replay.clone(),
+                            J::Null,
+                        ),
+                        _ => {}
+                    }
+                    let _ = catch(|| serde_json::from_str::<Variant>(&text[..floor_char_boundary(&text, k)]).is_err());
+                    let _ = catch(|| bincode::serialize_into(FailAfter(k), &v).is_err());
+                    let _ = catch(|| rmp_serde::encode::write(&mut FailAfter(k), &v).is_err());
+                    match catch(|| serde_json::to_string(&v)) {
+                        Ok(Ok(again)) if again == text => {}
+                        Ok(Ok(again)) => rep.violation(
+                            &format!("C17:json:state-left-by-failed-call:{:?}", ty),
+                            &format!("after a serialization that failed at byte {}, the same value serializes to {} instead of {}", k, short(&again), short(&text)),
+                            replay.clone(),
+                            J::Null,
+                        ),
+                        _ => rep.violation(&format!("C17:json:fails-after-failed-call:{:?}", ty), "serialization fails after an earlier failed call", replay.clone(), J::Null),
+                    }
+                    check_entry(rep, "json.from_str-after-failed-call", ty, &orig, catch(|| serde_json::from_str::<Variant>(&text)), &replay, &dbg);
                 }
             }
             Ok(Err(e)) => rep.violation(&format!("C17:json.to_string:error:{:?}", ty), &format!("to_string failed: {} ({})", e, dbg), replay.clone(), J::Null),
